@@ -155,6 +155,7 @@ func runC13(w *World, r *Report) {
 	shareRule(w, r, "C13.tool-goroutines-capture-no-loop-variable", "no literal started as a goroutine in the tools node captures a loop variable", 1, "C17", "C17.loopvar")
 	shareRule(w, r, "C13.source-panic-lands-in-the-cell", "a panic of the source of a copied stream is recorded in the shared cell (inside the Once): every copy reads the same error item, not a zero chunk and a clean end on all copies but the one that ran the source", 1, "C08", "C08.copy-cell")
 	shareRule(w, r, "C13.failed-task-does-not-strand-its-siblings", "after a finished task is taken from the one-slot channel the next queued result is moved up whatever the task's outcome: waitAll keeps waiting behind a failed task, and results left in the backlog make a node error or panic hang the run instead of ending it with that error", 1, "C03", "C03.refill-after-receive")
+	shareRule(w, r, "C13.template-panic-is-an-error-of-the-run", "a component that fires its own callbacks and recovers a panic to report it re-panics (or returns the error): the chat template must not turn its own panic into a successful (nil, nil) return", 1, "C10", "C10.self-reporting-ends-on-panic")
 	r.Rule("C13.receiving-does-not-close", "no receive method of a reader in package schema closes the reader (or its sources) on its own: closing is the consumer's, and the receive side of a stream is closed by an unguarded close(chan) — a merged reader that closes itself when an error item arrives makes the consumer's own, correct Close panic 'close of closed channel' (a failing parallel producer becomes a panic of the consumer, errors.Is on the original error false)", 4)
 	{
 		n := 0
@@ -680,6 +681,25 @@ func runC13(w *World, r *Report) {
 			}
 			if doneState < 0 {
 				return
+			}
+			// the check is made at every step of every run, nested ones included: the select lies on every path round the
+			// run loop (it dominates the loop's back edges)
+			for _, li := range naturalLoops(runF) {
+				if !li.body[sel.Block()] {
+					continue
+				}
+				every := true
+				for _, b := range runF.Blocks {
+					if !li.body[b] {
+						continue
+					}
+					for _, sc := range b.Succs {
+						if sc == li.header && !(sel.Block() == b || sel.Block().Dominates(b)) {
+							every = false
+						}
+					}
+				}
+				r.Check(every, "C13.cancel-matchable", "runner.run: the cancellation check is made at every step", sel.Pos(), "the select on ctx.Done() dominates the back edges of the run loop", "some way round the run loop skips the check (e.g. for a nested graph): a multi-step or looping nested graph keeps running after cancellation — it runs to its step limit and the run fails with ErrExceedMaxSteps, node path [sub], instead of an error matchable as context.Canceled, or, if the nested graph reaches END on its own, the cancelled run even succeeds")
 			}
 			// the arm: blocks guarded by index == doneState
 			instrs(runF, func(x ssa.Instruction) {
